@@ -70,6 +70,7 @@ def gen(rng, tier, index):
     pattern_active = False
     est = hour * 3600 + minute * 60 + second + 1.2   # discovery ~1.1 s
     cur_d = 0
+    cur_mode = 'logical'
     for i in range(n_steps):
         st = {}
         kind = rng.choice(['d', 'd', 'd', 'd', 'at', 'zero', 'keep'])
@@ -101,9 +102,12 @@ def gen(rng, tier, index):
         elif kind == 'zero':
             st['d'] = 0
         elif kind == 'd':
-            if rng.random() < 0.2 and not pattern_active:
-                raw = not raw
-                st['units'] = 'raw' if raw else 'logical'
+            if rng.random() < 0.25 and not pattern_active:
+                mode = rng.choice([m for m in ('raw', 'logical', 'rgb')
+                                   if m != cur_mode])
+                cur_mode = mode
+                raw = mode == 'raw'
+                st['units'] = mode
             choices = [tick * 0.3, tick, tick * 2, tick * 2 - 1e-4,
                        tick * 3 + 1e-4, tick * 1.5, 0.25, 1.0, 2.75]
             if budget_ticks > 200:
